@@ -106,21 +106,26 @@ class _Builder(object):
         if not self.disc_consts:
             return None
         n1, v1 = self.draw(st.sampled_from(self.disc_consts))
-        form = self.draw(st.integers(0, 5))
+        form = self.draw(st.integers(0, 6))
         k = self.draw(st.integers(1, 5))
+        sp = self.draw(st.sampled_from([' ', '']))      # operators with and without blanks around them
         if form == 0:
             v, text = v1, n1
         elif form == 1:
-            v, text = v1 + k, '%s + %d' % (n1, k)
+            v, text = v1 + k, '%s%s+%s%d' % (n1, sp, sp, k)
         elif form == 2:
-            v, text = v1 * k, '%s * %d' % (n1, k)
+            v, text = v1 * k, '%s%s*%s%d' % (n1, sp, sp, k)
         elif form == 3:
-            v, text = (v1 + k) * 2, '(%s + %d) * 2' % (n1, k)
+            v, text = (v1 + k) * 2, '(%s%s+%s%d)%s*%s2' % (n1, sp, sp, k, sp, sp)
         elif form == 4:
             n2, v2 = self.draw(st.sampled_from(self.disc_consts))
-            v, text = v1 + v2, '%s + %s' % (n1, n2)
+            v, text = v1 + v2, '%s%s+%s%s' % (n1, sp, sp, n2)
+        elif form == 5:
+            v, text = v1 - v1 + k, '%s%s-%s%s%s+%s%d' % (n1, sp, sp, n1, sp, sp, k)
         else:
-            v, text = v1 - v1 + k, '%s - %s + %d' % (n1, n1, k)
+            if v1 < k:
+                return None
+            v, text = v1 - k, '%s%s-%s%d' % (n1, sp, sp, k)
         if not lo <= v <= hi:
             return None
         return v, text
